@@ -4,6 +4,7 @@ Kernel: the real SectionItems accessors (__contains__, __getitem__, __getattr__,
 get, __setitem__/set_item_value, mnemonic_compare) on a section built by a symbolic history,
 probed with a symbolic key (string, integer or slice).
 """
+import numpy as np
 from symlas import core, z
 from symlas.driver import apply_exclusions
 from symlas.values import SymStr, SymInt, B, fresh_int, fresh_bool
@@ -34,7 +35,7 @@ ASSUMPTIONS = [
     "sections of HeaderItems built by up to the stated number of append/insert operations with symbolic names, positions and case-normalisation flag",
     "probe keys: every string up to 3 characters over 'Aa:1 ', every integer in [-n-1, n], every slice with bounds in [-n-1, n+1]",
 ]
-WITNESS_TARGETS = ["key-present", "key-absent", "match-by-case-only"]
+WITNESS_TARGETS = ["key-present", "key-absent", "match-by-case-only", "section-of-curve-items"]
 EXCLUSIONS = {}
 
 
@@ -47,6 +48,10 @@ def tasks(tier):
 def _cmp(a, b, tr):
     a, b = SymStr.lift(a), SymStr.lift(b)
     return SymStr.lift(a.upper()).eq_expr(b.upper()) if tr else a.eq_expr(b)
+
+
+def item_data(t):
+    return np.array([10.0 * t + 1, 10.0 * t + 2])
 
 
 def harness(ns, params):
@@ -67,19 +72,25 @@ def harness(ns, params):
         pos = [fresh_int("pos%d" % t, 0, t) for t in range(k)]
         ia = fresh_int("ia", -k - 1, k + 1)
         ib = fresh_int("ib", -k - 1, k + 1)
-        inputs = {"probe": probe, "names": names, "pos": pos, "transforms": tr, "key": key, "ia": ia, "ib": ib}
+        cvs = fresh_bool("curve_section")  # a section of CurveItems carrying float64 arrays (get() builds its default from the first one)
+        inputs = {"probe": probe, "names": names, "pos": pos, "transforms": tr, "key": key, "ia": ia, "ib": ib, "curve_section": cvs}
         c = core.ctx()
         c.inputs = inputs
         apply_exclusions(inputs)
         trz = bool(tr)
+        if probe not in ("get", "get_add"):
+            A(z.Not(B(cvs)))
+        cvz = bool(cvs)
+        core.witness("section-of-curve-items", cvz)
         s = SectionItems()
         if trz:
             s.mnemonic_transforms = True
         for t in range(k):
-            s.insert(pos[t], HeaderItem(names[t], value="v%d" % t))
+            s.insert(pos[t], ns.items.CurveItem(names[t], value="v%d" % t, data=item_data(t)) if cvz else HeaderItem(names[t], value="v%d" % t))
         items = list(list.__iter__(s))
         sess = [SymStr.lift(it.mnemonic) for it in items]
         snap = [(it, it.mnemonic, it.original_mnemonic, it.unit, it.value, it.descr) for it in items]
+        datas = [np.array(it.data, copy=True) if cvz else None for it in items]
         match = [_cmp(sess[j], key, trz) for j in range(len(items))]
         anym = z.Or(match)
         first = [z.And(match[j], z.Not(z.Or(match[:j]))) for j in range(len(items))]
@@ -94,7 +105,7 @@ def harness(ns, params):
             cur = list(list.__iter__(s))
             if len(cur) != len(snap) or any(a is not b[0] for a, b in zip(cur, snap)):
                 return False
-            cs = []
+            cs = [bool(np.array_equal(np.asarray(it.data), dd)) for (it, *_), dd in zip(snap, datas) if dd is not None]
             for it, m, o, u, v, d in snap:
                 cs += [SymStr.lift(it.mnemonic).eq_expr(m), SymStr.lift(it.original_mnemonic).eq_expr(o), it.unit == u, it.descr == d]
                 if it is not except_value_of:
@@ -146,9 +157,14 @@ def harness(ns, params):
                 obs = j[0]
             else:
                 core.oblige("get-creates-only-when-absent", z.Not(anym))
-                core.oblige("get-new-item-carries-key-and-default", z.And(SymStr.lift(it.original_mnemonic).eq_expr(key), it.value == "dflt"))
+                if cvz and items:
+                    nd = np.asarray(it.data)
+                    core.oblige("get-new-curve-item-carries-key-default-and-NaN-data", z.And(SymStr.lift(it.original_mnemonic).eq_expr(key), it.descr == "dflt", nd.shape == datas[0].shape and bool(np.all(nd != nd))))
+                else:
+                    core.oblige("get-new-item-carries-key-and-default", z.And(SymStr.lift(it.original_mnemonic).eq_expr(key), it.value == "dflt"))
                 if add:
                     core.oblige("get-add-appends-exactly-one", len(cur) == len(items) + 1 and cur[-1] is it and all(a is b for a, b in zip(cur, items)))
+                    core.oblige("get-add-leaves-the-arrays-of-the-other-items-alone", all(bool(np.array_equal(np.asarray(x.data), dd)) for x, dd in zip(items, datas) if dd is not None))
                 else:
                     core.oblige("get-without-add-is-pure", unchanged())
                 obs = "new"
@@ -212,9 +228,11 @@ def replay(i):
     s = lasio.SectionItems()
     if tr:
         s.mnemonic_transforms = True
+    cvz = bool(i.get("curve_section"))
     for t, nm in enumerate(names):
-        s.insert(pos[t], lasio.HeaderItem(nm, value="v%d" % t))
+        s.insert(pos[t], lasio.CurveItem(nm, value="v%d" % t, data=item_data(t)) if cvz else lasio.HeaderItem(nm, value="v%d" % t))
     items = list(list.__iter__(s))
+    datas = [np.array(it.data, copy=True) if cvz else None for it in items]
     sess = [it.mnemonic for it in items]
     norm = (lambda x: x.upper()) if tr else (lambda x: x)
     match = [norm(m) == norm(key) for m in sess]
@@ -225,6 +243,8 @@ def replay(i):
     def unchanged(exc=None):
         cur = list(list.__iter__(s))
         if len(cur) != len(snap) or any(a is not b[0] for a, b in zip(cur, snap)):
+            return False
+        if not all(np.array_equal(np.asarray(it.data), dd) for (it, *_), dd in zip(snap, datas) if dd is not None):
             return False
         return all((it.mnemonic, it.original_mnemonic, it.unit, it.descr) == (m, o, u, d) and (it is exc or it.value == v) for it, m, o, u, v, d in snap)
 
@@ -274,8 +294,14 @@ def replay(i):
             obs = "new"
             if any(match):
                 problems.append("get(%r) created a new item although present in %r" % (key, sess))
-            if it.original_mnemonic != key or it.value != "dflt":
+            if cvz and items:
+                nd = np.asarray(it.data)
+                if it.original_mnemonic != key or it.descr != "dflt" or nd.shape != datas[0].shape or not np.all(nd != nd):
+                    problems.append("get(%r) new curve item is %r with data %r" % (key, it, nd))
+            elif it.original_mnemonic != key or it.value != "dflt":
                 problems.append("get(%r) new item is %r" % (key, it))
+            if not all(np.array_equal(np.asarray(x.data), dd) for x, dd in zip(items, datas) if dd is not None):
+                problems.append("get(%r, add=%r) changed the arrays of existing curves: %r, before %r" % (key, add, [list(x.data) for x in items], [list(dd) for dd in datas]))
             if add and not (len(cur) == len(items) + 1 and cur[-1] is it and cur[:-1] == items):
                 problems.append("get(add=True) did not append exactly one item")
             if not add and not unchanged():
